@@ -31,7 +31,7 @@
 //	             →  "%s %w"): WHICH values are reported and whether the cause is wrapped (%w, what errors.Is and
 //	             `err == ErrX` see) stays, the wording does not (no property speaks about message texts)
 //	  InlineConsts (opt-in, not part of AllNorm) an identifier that names a constant declared in the SAME file by a
-//	             basic literal (`const maxLen = 24`) is replaced by that literal
+//	             numeric literal (`const maxLen = 24`) is replaced by that literal
 //	CanonPrint(fset, n)      go/printer text of n, blanks collapsed, with every identifier that is
 //	             declared inside a function (receiver, parameters, results, locals, labels, local
 //	             types) printed as v<k>, k = rank of its declaration position inside that function.
@@ -143,8 +143,32 @@ func IndexLocals(f *ast.File) {
 			return true
 		})
 		sort.SliceStable(objs, func(i, j int) bool { return objs[i].Pos() < objs[j].Pos() })
-		for i, o := range objs {
-			astnormCanon[o] = fmt.Sprintf("v%d", i+1)
+		// function literals: an object declared inside one is ranked among the objects of the SAME innermost
+		// literal and gets the letter of its nesting depth (a<k> inside a closure, b<k> inside a closure of a
+		// closure …), so that a local added or removed outside a closure does not renumber the closure's own
+		var lits []*ast.FuncLit
+		ast.Inspect(fd, func(n ast.Node) bool {
+			if fl, ok := n.(*ast.FuncLit); ok {
+				lits = append(lits, fl)
+			}
+			return true
+		})
+		count := map[*ast.FuncLit]int{}
+		for _, o := range objs {
+			var inner *ast.FuncLit
+			depth := 0
+			for _, fl := range lits { // lits are in source order: an enclosing literal comes before the enclosed one
+				if o.Pos() >= fl.Pos() && o.Pos() < fl.End() {
+					inner = fl
+					depth++
+				}
+			}
+			count[inner]++
+			letter := "v"
+			if depth > 0 {
+				letter = string(rune('a' + (depth-1)%20))
+			}
+			astnormCanon[o] = fmt.Sprintf("%s%d", letter, count[inner])
 		}
 	}
 }
@@ -520,7 +544,7 @@ func (nz *normalizer) expr(e ast.Expr) ast.Expr {
 			if vs, ok := x.Obj.Decl.(*ast.ValueSpec); ok && vs.Type == nil && len(vs.Values) == len(vs.Names) {
 				for i, nm := range vs.Names {
 					if nm.Obj == x.Obj {
-						if bl, ok := vs.Values[i].(*ast.BasicLit); ok {
+						if bl, ok := vs.Values[i].(*ast.BasicLit); ok && (bl.Kind == token.INT || bl.Kind == token.FLOAT) {
 							return &ast.BasicLit{ValuePos: x.NamePos, Kind: bl.Kind, Value: bl.Value}
 						}
 					}
